@@ -22,6 +22,7 @@ import (
 	"github.com/ucan-wg/go-ucan/token/invocation"
 
 	"verifharness/engine"
+	"verifharness/fixtures"
 	"verifharness/refmodel"
 )
 
@@ -79,6 +80,15 @@ func c08HashSub() *engine.Sub {
 						return ok
 					})
 					if !ok {
+						return
+					}
+				}
+			}
+			// the plain token under EVERY key algorithm and size of the fixtures: signatures of 64, 70 - 72, 102 - 104, 137 - 139,
+			// 256 (RSA-2048: exactly the size at which the head of a CBOR byte string grows), 384 and 512 bytes
+			for _, alg := range fixtures.Algs() {
+				for _, kind := range []string{"dlg", "inv"} {
+					if !emit(&c07Case{Spec: TokSpec{Kind: kind, Alg: alg, Opts: map[string]string{"nonce": "12"}}}) {
 						return
 					}
 				}
@@ -595,6 +605,12 @@ func c08Base(base, alg string) []byte {
 			if err != nil {
 				panic(err)
 			}
+			if !c08WellFormed(b) {
+				// what ToSealed returned is not one CBOR item the library can unseal: the canonical-bytes sub-check reports
+				// it for this base (class genuine-token-does-not-unseal) instead of working on it
+				baseCache[id] = b
+				return b
+			}
 			if sig := splitEnvelope(b).Sig; len(sig) > 0 && sig[0] == 0 {
 				baseCache[id] = b
 				return b
@@ -612,6 +628,15 @@ func c08Base(base, alg string) []byte {
 	}
 	baseCache[id] = b
 	return b
+}
+
+// c08WellFormed: the sealed bytes are one CBOR item (own parser) that token.FromSealed accepts.
+func c08WellFormed(b []byte) bool {
+	if _, rest, err := refmodel.ParseCbor(b); err != nil || len(rest) != 0 {
+		return false
+	}
+	_, _, err := token.FromSealed(b)
+	return err == nil
 }
 
 func c08Decoders(kind string) map[string]func([]byte) (any, error) {
@@ -673,6 +698,12 @@ func c08CanonSub() *engine.Sub {
 				for _, base := range bases {
 					orig := c08Base(base, alg)
 					oh := hex.EncodeToString(orig)
+					if !c08WellFormed(orig) {
+						if !emit(&c08Case{Base: base, Alg: alg, SigVar: "none/the-genuine-token", Orig: oh}) {
+							return
+						}
+						continue
+					}
 					root, _, _ := refmodel.ParseCbor(orig)
 					sites := reencSites(&root)
 					for _, s := range sites {
@@ -710,6 +741,13 @@ func c08CanonSub() *engine.Sub {
 			kind := c08BaseSpecs[cs.Base].Kind
 			var mutated []byte
 			cls := ""
+			if !c08WellFormed(orig) {
+				_, _, err := token.FromSealed(orig)
+				ctx.States(1)
+				ctx.Nontrivial(1)
+				ctx.Failf(cs, "genuine-token-does-not-unseal", "the bytes ToSealed returned for the %s base token of a %s issuer (%d bytes) are not accepted by token.FromSealed: %v", cs.Base, cs.Alg, len(orig), err)
+				return
+			}
 			if cs.SigVar != "" {
 				p := splitEnvelope(orig)
 				_ = p
